@@ -1,14 +1,46 @@
 """worker subprocess: python -m ovf.worker <jobs.json> <out.json>"""
 import importlib
 import json
+import os
 import sys
 import traceback
 
 from ovf import env
 
 
+def start_reach():
+    """which functions of the repository this worker entered (sys.monitoring PY_START, disabled per code object after
+    the first hit, so the cost is one callback per function); reported in the evidence as the reach map"""
+    mon = getattr(sys, "monitoring", None)
+    entered = set()
+    if mon is None:
+        return None
+    root = os.path.join(os.path.realpath(env.REPO), "orquesta") + os.sep
+
+    def on_start(code, offset):
+        fn = code.co_filename
+        if fn.startswith(root) and "/tests/" not in fn and code.co_name != "<module>":
+            entered.add("%s:%s" % (fn[len(root) - len("orquesta/"):], code.co_qualname))
+        return mon.DISABLE
+
+    try:
+        mon.use_tool_id(3, "ovf-reach")
+        mon.register_callback(3, mon.events.PY_START, on_start)
+        mon.set_events(3, mon.events.PY_START)
+    except Exception:
+        return None
+    return entered
+
+
 def main():
     env.setup_path()
+    cov = None
+    if os.environ.get("OVF_LINECOV"):  # development aid (tools/linecov.sh): line coverage of the repository under a workload
+        import coverage
+        cov = coverage.Coverage(data_file=os.path.join(os.environ["OVF_LINECOV"], "cov"), data_suffix=True,
+                                include=[os.path.join(os.path.realpath(env.REPO), "orquesta", "*")], omit=["*/tests/*"])
+        cov.start()
+    entered = start_reach() if cov is None else None
     with open(sys.argv[1]) as f:
         jobs = json.load(f)
     out = []
@@ -25,6 +57,11 @@ def main():
             sys.stderr.write("job %r crashed:\n%s" % ({k: job[k] for k in job if k != 'case'}, traceback.format_exc()))
             sys.exit(3)
         out.append(r)
+    if entered is not None and out and isinstance(out[0], dict):
+        out[0].setdefault("sets", {})["reach.functions"] = sorted(entered)
+    if cov is not None:
+        cov.stop()
+        cov.save()
     with open(sys.argv[2], "w") as f:
         json.dump(out, f, default=lambda o: sorted(o) if isinstance(o, (set, frozenset)) else str(o))
 
